@@ -1,4 +1,4 @@
-(* JobProofs.v — proofs about the acceptor program job_ref (JobModel), for every environment:
+(* JobProofs.v — proofs about the acceptor program (job_prog lim) (JobModel), for every environment:
    every list of answers to its calls, every placement of signal deliveries.            *)
 From Coq Require Import List ZArith Bool Lia Arith.
 From MV Require Import JobModel.
@@ -47,7 +47,7 @@ Lemma deliver_eq : forall l gt gr sd e ce ct le lt m nf cs rs n tr,
 Proof.
   unfold deliver, ft, fr, sigev.
   induction l as [|s l IH]; intros; cbn [fold_left map rev app]; [reflexivity|].
-  destruct s; unfold deliver1 at 2, set_term, set_reconf;
+  destruct s; unfold deliver1 at 2, handler, set_term, set_reconf;
     cbn [vs calls reads rdx trace g_term g_reconf v_sd v_errno v_cerrno v_ctime v_lerrno v_ltime v_msg v_nextfd signo];
     rewrite IH, <- app_assoc; reflexivity.
 Qed.
@@ -73,9 +73,9 @@ Proof. reflexivity. Qed.
 Lemma loop_rule_dec : forall (I : st -> Prop) (Q : ctl -> st -> Prop) c body,
   (forall x, I x ->
      match eval_cond c x with
-     | None => Q KStuck x
-     | Some (false, x') => Q KNormal x'
-     | Some (true, x') =>
+     | (None, x') => Q KStuck x'
+     | (Some false, x') => Q KNormal x'
+     | (Some true, x') =>
          match exec body x' with
          | (KNormal, x'') | (KContinue, x'') => I x'' /\ (length (calls x'') < length (calls x))%nat
          | (KBreak, x'') => Q KNormal x''
@@ -87,7 +87,7 @@ Lemma loop_rule_dec : forall (I : st -> Prop) (Q : ctl -> st -> Prop) c body,
 Proof.
   intros I Q c body H. induction fuel as [|f IH]; intros x HI Hf; [lia|].
   cbn [loop]. specialize (H x HI).
-  destruct (eval_cond c x) as [[[|] x']|]; cbn [fst snd]; try exact H.
+  destruct (eval_cond c x) as [[[|]|] x']; cbn [fst snd]; try exact H.
   destruct (exec body x') as [k x'']; destruct k; cbn [fst snd]; try exact H.
   - destruct H as [HI' Hl]. destruct (Nat.ltb_spec (length (calls x'')) (length (calls x))); [|lia].
     apply IH; [exact HI'|lia].
@@ -100,9 +100,9 @@ Lemma loop_rule : forall (I : st -> Prop) (Q : ctl -> st -> Prop) c body,
   (forall x, I x -> Q KSpin x) ->
   (forall x, I x ->
      match eval_cond c x with
-     | None => Q KStuck x
-     | Some (false, x') => Q KNormal x'
-     | Some (true, x') =>
+     | (None, x') => Q KStuck x'
+     | (Some false, x') => Q KNormal x'
+     | (Some true, x') =>
          match exec body x' with
          | (KNormal, x'') | (KContinue, x'') => I x''
          | (KBreak, x'') => Q KNormal x''
@@ -113,7 +113,7 @@ Lemma loop_rule : forall (I : st -> Prop) (Q : ctl -> st -> Prop) c body,
 Proof.
   intros I Q c body Hs H. induction fuel as [|f IH]; intros x HI; [cbn; auto|].
   cbn [loop]. specialize (H x HI).
-  destruct (eval_cond c x) as [[[|] x']|]; cbn [fst snd]; try exact H.
+  destruct (eval_cond c x) as [[[|]|] x']; cbn [fst snd]; try exact H.
   destruct (exec body x') as [k x'']; destruct k; cbn [fst snd]; try exact H.
   - destruct (length (calls x'') <? length (calls x))%nat; [apply IH; exact H|cbn; auto].
   - destruct (length (calls x'') <? length (calls x))%nat; [apply IH; exact H|cbn; auto].
@@ -122,7 +122,7 @@ Ltac model_red :=
   cbv beta iota zeta delta [exec eval_cond call void_call sync with_vars keep msgfd log_arg reads_flag
     set_term set_reconf set_sd set_errno set_cerrno set_ctime set_lerrno set_ltime set_msg set_nextfd
     vs calls reads rdx trace g_term g_reconf v_sd v_errno v_cerrno v_ctime v_lerrno v_ltime v_msg v_nextfd
-    a_ret a_sigs seq job_ref p_pre p_cond p_body p_post log_limit_secs clobber]; cbn [negb].
+    a_ret a_sigs seq job_prog p_pre p_cond p_body p_post clobber]; cbn [negb].
 
 Ltac closed_errno :=
   repeat match goal with
@@ -156,56 +156,56 @@ Ltac sym_step :=
 Definition at_loop (I : st -> Prop) (Q : ctl -> st -> Prop) (k : ctl) (x : st) : Prop :=
   match k with KNormal => I x | _ => Q k x end.
 
-Lemma run_from_rule : forall (I : st -> Prop) (Q : ctl -> st -> Prop) p,
-  (forall x, I x -> match exec (p_pre p) x with (KNormal, x') => I x' | (k, x') => Q k x' end) ->
+Lemma run_from_rule : forall (I0 I Ie : st -> Prop) (Q : ctl -> st -> Prop) p,
+  (forall x, I0 x -> match exec (p_pre p) x with (KNormal, x') => I x' | (k, x') => Q k x' end) ->
   (forall x, I x -> Q KSpin x) ->
   (forall x, I x ->
      match eval_cond (p_cond p) x with
-     | None => Q KStuck x
-     | Some (false, x') => I x'
-     | Some (true, x') =>
+     | (None, x') => Q KStuck x'
+     | (Some false, x') => Ie x'
+     | (Some true, x') =>
          match exec (p_body p) x' with
          | (KNormal, x'') | (KContinue, x'') => I x''
-         | (KBreak, x'') => I x''
+         | (KBreak, x'') => Ie x''
          | (k, x'') => Q k x''
          end
      end) ->
-  (forall x, I x -> Q (fst (exec (p_post p) x)) (snd (exec (p_post p) x))) ->
-  forall x, I x -> Q (fst (run_from p x)) (snd (run_from p x)).
+  (forall x, Ie x -> Q (fst (exec (p_post p) x)) (snd (exec (p_post p) x))) ->
+  forall x, I0 x -> Q (fst (run_from p x)) (snd (run_from p x)).
 Proof.
-  intros I Q p Hpre Hspin Hit Hpost x HI. unfold run_from.
+  intros I0 I Ie Q p Hpre Hspin Hit Hpost x HI. unfold run_from.
   specialize (Hpre x HI). destruct (exec (p_pre p) x) as [k x1]. destruct k; cbn [fst snd]; try exact Hpre.
-  assert (HL : at_loop I Q (fst (loop (S (length (calls x1))) (p_cond p) (p_body p) x1))
+  assert (HL : at_loop Ie Q (fst (loop (S (length (calls x1))) (p_cond p) (p_body p) x1))
                            (snd (loop (S (length (calls x1))) (p_cond p) (p_body p) x1))).
   { apply loop_rule with (I := I); [exact Hspin| |exact Hpre].
-    intros y Hy. specialize (Hit y Hy). destruct (eval_cond (p_cond p) y) as [[[|] y']|]; try exact Hit.
+    intros y Hy. specialize (Hit y Hy). destruct (eval_cond (p_cond p) y) as [[[|]|] y']; try exact Hit.
     destruct (exec (p_body p) y') as [k y'']; destruct k; exact Hit. }
   destruct (loop (S (length (calls x1))) (p_cond p) (p_body p) x1) as [k x2]. cbn [fst snd] in HL.
   destruct k; cbn [at_loop fst snd] in *; try exact HL. apply Hpost; exact HL.
 Qed.
 
-Lemma run_from_rule_dec : forall (I : st -> Prop) (Q : ctl -> st -> Prop) p,
-  (forall x, I x -> match exec (p_pre p) x with (KNormal, x') => I x' | (k, x') => Q k x' end) ->
+Lemma run_from_rule_dec : forall (I0 I Ie : st -> Prop) (Q : ctl -> st -> Prop) p,
+  (forall x, I0 x -> match exec (p_pre p) x with (KNormal, x') => I x' | (k, x') => Q k x' end) ->
   (forall x, I x ->
      match eval_cond (p_cond p) x with
-     | None => Q KStuck x
-     | Some (false, x') => I x'
-     | Some (true, x') =>
+     | (None, x') => Q KStuck x'
+     | (Some false, x') => Ie x'
+     | (Some true, x') =>
          match exec (p_body p) x' with
          | (KNormal, x'') | (KContinue, x'') => I x'' /\ (length (calls x'') < length (calls x))%nat
-         | (KBreak, x'') => I x''
+         | (KBreak, x'') => Ie x''
          | (k, x'') => Q k x''
          end
      end) ->
-  (forall x, I x -> Q (fst (exec (p_post p) x)) (snd (exec (p_post p) x))) ->
-  forall x, I x -> Q (fst (run_from p x)) (snd (run_from p x)).
+  (forall x, Ie x -> Q (fst (exec (p_post p) x)) (snd (exec (p_post p) x))) ->
+  forall x, I0 x -> Q (fst (run_from p x)) (snd (run_from p x)).
 Proof.
-  intros I Q p Hpre Hit Hpost x HI. unfold run_from.
+  intros I0 I Ie Q p Hpre Hit Hpost x HI. unfold run_from.
   specialize (Hpre x HI). destruct (exec (p_pre p) x) as [k x1]. destruct k; cbn [fst snd]; try exact Hpre.
-  assert (HL : at_loop I Q (fst (loop (S (length (calls x1))) (p_cond p) (p_body p) x1))
+  assert (HL : at_loop Ie Q (fst (loop (S (length (calls x1))) (p_cond p) (p_body p) x1))
                            (snd (loop (S (length (calls x1))) (p_cond p) (p_body p) x1))).
   { apply loop_rule_dec with (I := I); [|exact Hpre|lia].
-    intros y Hy. specialize (Hit y Hy). destruct (eval_cond (p_cond p) y) as [[[|] y']|]; try exact Hit.
+    intros y Hy. specialize (Hit y Hy). destruct (eval_cond (p_cond p) y) as [[[|]|] y']; try exact Hit.
     destruct (exec (p_body p) y') as [k y'']; destruct k; exact Hit. }
   destruct (loop (S (length (calls x1))) (p_cond p) (p_body p) x1) as [k x2]. cbn [fst snd] in HL.
   destruct k; cbn [at_loop fst snd] in *; try exact HL. apply Hpost; exact HL.
@@ -226,35 +226,35 @@ Ltac h_leaves Hm Hh h :=
   try exact I; try reflexivity;
   try (split; [lia | eexists; split; [reflexivity | intros; discriminate]]).
 
-Lemma h_iter : forall x, hI x ->
-     match eval_cond (p_cond job_ref) x with
-     | None => hQ KStuck x
-     | Some (false, x') => hI x'
-     | Some (true, x') =>
-         match exec (p_body job_ref) x' with
+Lemma h_iter : forall lim x, hI x ->
+     match eval_cond (p_cond (job_prog lim)) x with
+     | (None, x') => hQ KStuck x'
+     | (Some false, x') => hI x'
+     | (Some true, x') =>
+         match exec (p_body (job_prog lim)) x' with
          | (KNormal, x'') | (KContinue, x'') => hI x''
          | (KBreak, x'') => hI x''
          | (k, x'') => hQ k x''
          end
      end.
 Proof.
-  intros [[gt gr sd e ce ct le lt m nf] cs rs n tr] [Hnf [h [Hm Hh]]].
+  intros lim [[gt gr sd e ce ct le lt m nf] cs rs n tr] [Hnf [h [Hm Hh]]].
   unfold hI, hQ, hm in *. cbn [trace vs v_nextfd] in *.
   model_red. repeat sym_step.
   all: h_leaves Hm Hh h.
 Qed.
 
-Lemma h_pre : forall x, hI x -> match exec (p_pre job_ref) x with (KNormal, x') => hI x' | (k, x') => hQ k x' end.
+Lemma h_pre : forall lim x, hI x -> match exec (p_pre (job_prog lim)) x with (KNormal, x') => hI x' | (k, x') => hQ k x' end.
 Proof.
-  intros [[gt gr sd e ce ct le lt m nf] cs rs n tr] [Hnf [h [Hm Hh]]].
+  intros lim [[gt gr sd e ce ct le lt m nf] cs rs n tr] [Hnf [h [Hm Hh]]].
   unfold hI, hQ, hm in *. cbn [trace vs v_nextfd] in *.
   model_red. repeat sym_step.
   all: h_leaves Hm Hh h.
 Qed.
 
-Lemma h_post : forall x, hI x -> hQ (fst (exec (p_post job_ref) x)) (snd (exec (p_post job_ref) x)).
+Lemma h_post : forall lim x, hI x -> hQ (fst (exec (p_post (job_prog lim)) x)) (snd (exec (p_post (job_prog lim)) x)).
 Proof.
-  intros [[gt gr sd e ce ct le lt m nf] cs rs n tr] [Hnf [h [Hm Hh]]].
+  intros lim [[gt gr sd e ce ct le lt m nf] cs rs n tr] [Hnf [h [Hm Hh]]].
   unfold hI, hQ, hm in *. cbn [trace vs v_nextfd] in *.
   model_red. repeat sym_step.
   all: cbn [fst snd trace]; h_leaves Hm Hh h.
@@ -267,15 +267,719 @@ Lemma init_eq : forall isigs cs rs,
   deliver isigs (init cs rs) = mks (mkv (ft isigs 0) (fr isigs 0) (-1) E0 E0 0 E0 0 None first_fd) cs rs 0%nat (sigev isigs ++ []).
 Proof. intros. unfold init, init_vars. apply deliver_eq. Qed.
 
-Theorem handoff : forall isigs cs rs, handoff_ok (snd (run job_ref isigs cs rs)) (fst (run job_ref isigs cs rs)) = true.
+Theorem handoff : forall lim isigs cs rs, handoff_ok (snd (run (job_prog lim) isigs cs rs)) (fst (run (job_prog lim) isigs cs rs)) = true.
 Proof.
   intros. unfold run.
-  assert (H : hQ (fst (run_from job_ref (deliver isigs (init cs rs)))) (snd (run_from job_ref (deliver isigs (init cs rs))))).
-  { apply run_from_rule with (I := hI); [exact h_pre|exact h_spin|exact h_iter|exact h_post|].
+  assert (H : hQ (fst (run_from (job_prog lim) (deliver isigs (init cs rs)))) (snd (run_from (job_prog lim) (deliver isigs (init cs rs))))).
+  { apply run_from_rule with (I0 := hI) (I := hI) (Ie := hI); [exact (h_pre lim)|exact h_spin|exact (h_iter lim)|exact (h_post lim)|].
     rewrite init_eq. split; [cbn; unfold first_fd; lia|]. exists HIdle. unfold hm. cbn [trace].
     rewrite (mon_rev_sigev _ hstep hstep_sig). split; [reflexivity|intros; discriminate]. }
-  destruct (run_from job_ref (deliver isigs (init cs rs))) as [k x]. cbn [fst snd] in *.
+  destruct (run_from (job_prog lim) (deliver isigs (init cs rs))) as [k x]. cbn [fst snd] in *.
   unfold handoff_ok, hQ, hm in *. rewrite mon_rev_spec.
   destruct (mon_rev hstep HIdle (trace x)) as [[| | |]|]; try reflexivity; [|contradiction].
   rewrite H. reflexivity.
 Qed.
+
+(* ------------------------------------------------------------------------- *)
+(* (B) backlog                                                                 *)
+(* ------------------------------------------------------------------------- *)
+Lemma in_shortage : forall e, existsb (errno_eqb e) [EMFILE; ENFILE; ENOBUFS; ENOMEM] = shortage e.
+Proof. destruct e; reflexivity. Qed.
+Lemma in_retryable : forall e, existsb (errno_eqb e) [ECONNABORTED; EINTR] = retryable e.
+Proof. destruct e; reflexivity. Qed.
+Lemma shortage_not_retryable : forall e, shortage e = true -> retryable e = false.
+Proof. destruct e; cbn; congruence. Qed.
+
+Lemma retryable_not_shortage : forall e, retryable e = true -> shortage e = false.
+Proof. destruct e; cbn; congruence. Qed.
+
+Definition bm (x : st) := mon_rev bstep BOk (trace x).
+Definition bI (x : st) : Prop := 0 <= v_nextfd (vs x) /\ exists b, bm x = Some b /\ b <> BNeed.
+Definition bQ (k : ctl) (x : st) : Prop := bm x <> None /\ k <> KSpin.
+
+Ltac b_leaves Hm Hb b :=
+  repeat first [rewrite (mon_rev_sigev _ bstep bstep_sig) | rewrite mon_rev_cons];
+  rewrite Hm; destruct b; try (exfalso; apply Hb; reflexivity);
+  cbn [bstep];
+  try match goal with H : retryable ?e = true |- _ => rewrite (retryable_not_shortage _ H) end;
+  repeat match goal with H : ?c = _ |- context [?c] => rewrite H end;
+  cbn [bstep length];
+  repeat split; try discriminate; try lia;
+  try (eexists; split; [reflexivity | discriminate]).
+
+Ltac b_red := model_red; rewrite ?in_shortage, ?in_retryable.
+
+Lemma b_iter : forall lim x, bI x ->
+     match eval_cond (p_cond (job_prog lim)) x with
+     | (None, x') => bQ KStuck x'
+     | (Some false, x') => bI x'
+     | (Some true, x') =>
+         match exec (p_body (job_prog lim)) x' with
+         | (KNormal, x'') | (KContinue, x'') => bI x'' /\ (length (calls x'') < length (calls x))%nat
+         | (KBreak, x'') => bI x''
+         | (k, x'') => bQ k x''
+         end
+     end.
+Proof.
+  intros lim [[gt gr sd e ce ct le lt m nf] cs rs n tr] [Hnf [b [Hm Hb]]].
+  unfold bI, bQ, bm in *. cbn [trace vs v_nextfd] in *.
+  b_red. repeat (sym_step; rewrite ?in_shortage, ?in_retryable).
+  all: b_leaves Hm Hb b.
+Qed.
+
+Definition bI0 (x : st) : Prop := 0 <= v_nextfd (vs x) /\ bm x = Some BOk.
+
+Lemma b_pre : forall lim x, bI0 x -> match exec (p_pre (job_prog lim)) x with (KNormal, x') => bI x' | (k, x') => bQ k x' end.
+Proof.
+  intros lim [[gt gr sd e ce ct le lt m nf] cs rs n tr] [Hnf Hm].
+  unfold bI, bQ, bm in *. cbn [trace vs v_nextfd] in *.
+  model_red. repeat sym_step.
+  all: repeat first [rewrite (mon_rev_sigev _ bstep bstep_sig) | rewrite mon_rev_cons]; rewrite Hm; cbn [bstep].
+  all: repeat split; try discriminate; try lia; try (eexists; split; [reflexivity | discriminate]).
+Qed.
+
+Lemma b_post : forall lim x, bI x -> bQ (fst (exec (p_post (job_prog lim)) x)) (snd (exec (p_post (job_prog lim)) x)).
+Proof.
+  intros lim [[gt gr sd e ce ct le lt m nf] cs rs n tr] [Hnf [b [Hm Hb]]].
+  unfold bI, bQ, bm in *. cbn [trace vs v_nextfd] in *.
+  model_red. repeat sym_step.
+  all: cbn [fst snd trace]; b_leaves Hm Hb b.
+Qed.
+
+Theorem backlog : forall lim isigs cs rs, backlog_ok (snd (run (job_prog lim) isigs cs rs)) (fst (run (job_prog lim) isigs cs rs)) = true.
+Proof.
+  intros. unfold run.
+  assert (H : bQ (fst (run_from (job_prog lim) (deliver isigs (init cs rs)))) (snd (run_from (job_prog lim) (deliver isigs (init cs rs))))).
+  { apply run_from_rule_dec with (I0 := bI0) (I := bI) (Ie := bI); [exact (b_pre lim)|exact (b_iter lim)|exact (b_post lim)|].
+    rewrite init_eq. split; [cbn; unfold first_fd; lia|]. unfold bm. cbn [trace].
+    rewrite (mon_rev_sigev _ bstep bstep_sig). reflexivity. }
+  destruct (run_from (job_prog lim) (deliver isigs (init cs rs))) as [k x]. cbn [fst snd] in *.
+  unfold backlog_ok, bQ, bm in *. rewrite mon_rev_spec. destruct H as [H1 H2].
+  destruct (mon_rev bstep BOk (trace x)); [|congruence]. destruct k; try reflexivity. congruence.
+Qed.
+
+(* ------------------------------------------------------------------------- *)
+(* which outcomes a statement can have                                         *)
+(* ------------------------------------------------------------------------- *)
+Fixpoint straight (s : stmt) : bool :=
+  match s with
+  | SSeq a b | SIf _ a b => straight a && straight b
+  | SContinue | SBreak | SReturn => false
+  | _ => true
+  end.
+Fixpoint no_jump (s : stmt) : bool :=
+  match s with
+  | SSeq a b | SIf _ a b => no_jump a && no_jump b
+  | SBreak | SReturn => false
+  | _ => true
+  end.
+
+Lemma void_call_ctl : forall ev upd x, fst (void_call ev upd x) = KNormal \/ fst (void_call ev upd x) = KStuck.
+Proof. intros. unfold void_call, call. destruct (calls x); cbn; auto. Qed.
+
+Lemma straight_ctl : forall s x, straight s = true ->
+  fst (exec s x) = KNormal \/ fst (exec s x) = KStuck \/ fst (exec s x) = KFatal.
+Proof.
+  induction s; intros x Hs; cbn [straight] in Hs; try discriminate; cbn [exec]; cbn [fst]; auto.
+  - apply andb_prop in Hs. destruct Hs as [Ha Hb]. specialize (IHs1 x Ha).
+    destruct (exec s1 x) as [k x1]. cbn [fst] in IHs1. destruct IHs1 as [->|[->| ->]]; cbn [fst]; auto.
+  - apply andb_prop in Hs. destruct Hs as [Ha Hb].
+    destruct (eval_cond c x) as [[[|]|] x1]; cbn [fst]; auto.
+  - destruct (void_call_ctl (fun v => ELog p t (log_arg t v)) (fun v => v) (if reads_flag t then sync x else x)) as [H|H]; auto.
+  - destruct (void_call_ctl (fun _ => EGids) (fun v => v) x) as [H|H]; auto.
+  - unfold call. destruct (calls x); cbn; auto.
+  - unfold call. destruct (calls x); cbn; auto.
+  - destruct (void_call_ctl (fun _ => EWait) (fun v => v) x) as [H|H]; auto.
+  - destruct (void_call_ctl (fun v => EClose (v_sd v)) (fun v => v) x) as [H|H]; auto.
+  - destruct (void_call_ctl (fun v => EDestroy (msgfd v)) (set_msg None) x) as [H|H]; auto.
+  - destruct (void_call_ctl (fun _ => EFini dowait) (fun v => v) x) as [H|H]; auto.
+Qed.
+
+Lemma no_jump_ctl : forall s x, no_jump s = true ->
+  fst (exec s x) <> KBreak /\ fst (exec s x) <> KReturn /\ fst (exec s x) <> KSpin.
+Proof.
+  induction s; intros x Hs; cbn [no_jump] in Hs; try discriminate; cbn [exec]; cbn [fst];
+    try (repeat split; discriminate).
+  - apply andb_prop in Hs. destruct Hs as [Ha Hb]. specialize (IHs1 x Ha).
+    destruct (exec s1 x) as [k x1]. cbn [fst] in IHs1. destruct k; cbn [fst]; auto.
+  - apply andb_prop in Hs. destruct Hs as [Ha Hb].
+    destruct (eval_cond c x) as [[[|]|] x1]; cbn [fst]; auto. repeat split; discriminate.
+  - destruct (void_call_ctl (fun v => ELog p t (log_arg t v)) (fun v => v) (if reads_flag t then sync x else x)) as [H|H];
+      rewrite H; repeat split; discriminate.
+  - destruct (void_call_ctl (fun _ => EGids) (fun v => v) x) as [H|H]; rewrite H; repeat split; discriminate.
+  - unfold call. destruct (calls x); cbn; repeat split; discriminate.
+  - unfold call. destruct (calls x); cbn; repeat split; discriminate.
+  - destruct (void_call_ctl (fun _ => EWait) (fun v => v) x) as [H|H]; rewrite H; repeat split; discriminate.
+  - destruct (void_call_ctl (fun v => EClose (v_sd v)) (fun v => v) x) as [H|H]; rewrite H; repeat split; discriminate.
+  - destruct (void_call_ctl (fun v => EDestroy (msgfd v)) (set_msg None) x) as [H|H]; rewrite H; repeat split; discriminate.
+  - destruct (void_call_ctl (fun _ => EFini dowait) (fun v => v) x) as [H|H]; rewrite H; repeat split; discriminate.
+Qed.
+
+(* ------------------------------------------------------------------------- *)
+(* invariants over (got_terminate, got_reconfig, log) and the statements that keep them *)
+(* ------------------------------------------------------------------------- *)
+Inductive ekind := KdAccept | KdFini | KdGids | KdSig | KdOther.
+Definition kind_of (e : event) : ekind :=
+  match e with
+  | EAcceptConn _ | EAcceptErr _ => KdAccept | EFini _ => KdFini | EGids => KdGids | ESig _ => KdSig | _ => KdOther
+  end.
+
+Fixpoint stmt_ok (okk : ekind -> bool) (ok_clear : bool) (s : stmt) : bool :=
+  match s with
+  | SSeq a b | SIf _ a b => stmt_ok okk ok_clear a && stmt_ok okk ok_clear b
+  | SAccept => okk KdAccept
+  | SFini _ => okk KdFini
+  | SGids => okk KdGids
+  | SClearReconf => ok_clear
+  | _ => true
+  end.
+
+Section Sig.
+Variable P : Z -> Z -> list event -> Prop.     (* got_terminate, got_reconfig, log (latest first) *)
+Hypothesis P_sig : forall gt gr tr s, P gt gr tr ->
+  P (match s with SIGHUP => gt | _ => signo s end) (match s with SIGHUP => signo s | _ => gr end) (ESig s :: tr).
+
+Definition Px (x : st) : Prop := P (g_term (vs x)) (g_reconf (vs x)) (trace x).
+
+Lemma Px_deliver : forall l x, Px x -> Px (deliver l x).
+Proof.
+  unfold deliver. induction l as [|s l IH]; intros x H; cbn [fold_left]; [exact H|].
+  apply IH. unfold Px, deliver1. cbn [vs trace]. destruct s; cbn;
+    [exact (P_sig _ _ _ SIGHUP H)|exact (P_sig _ _ _ SIGINT H)|exact (P_sig _ _ _ SIGTERM H)].
+Qed.
+
+Lemma Px_sync : forall x, Px x -> Px (sync x).
+Proof. intros x H. unfold sync. apply Px_deliver. exact H. Qed.
+
+Section Quiet.
+Variable okk : ekind -> bool.
+Variable ok_clear : bool.
+Hypothesis P_ev : forall gt gr tr e, okk (kind_of e) = true -> P gt gr tr -> P gt gr (e :: tr).
+Hypothesis P_clear : ok_clear = true -> forall gt gr tr, P gt gr tr -> P gt 0 tr.
+Hypothesis okk_other : okk KdOther = true.
+
+Lemma Px_call : forall ev upd x r x',
+  call ev upd x = Some (r, x') ->
+  (forall r v, g_term (upd r v) = g_term v) -> (forall r v, g_reconf (upd r v) = g_reconf v) ->
+  (forall r v, okk (kind_of (ev r v)) = true) ->
+  Px x -> Px x'.
+Proof.
+  intros ev upd x r x' Hc Ht Hr He H. unfold call in Hc. destruct (calls x) as [|a cs]; [discriminate|].
+  inversion Hc; subst. apply Px_deliver. unfold Px. cbn [vs trace]. rewrite Ht, Hr. apply P_ev; [apply He|exact H].
+Qed.
+
+Lemma Px_call_snd : forall ev upd x,
+  (forall r v, g_term (upd r v) = g_term v) -> (forall r v, g_reconf (upd r v) = g_reconf v) ->
+  (forall r v, okk (kind_of (ev r v)) = true) ->
+  Px x -> match call ev upd x with Some (_, x') => Px x' | None => True end.
+Proof.
+  intros ev upd x Ht Hr He H. destruct (call ev upd x) as [[r x']|] eqn:Hc; [|exact I].
+  eapply Px_call; eauto.
+Qed.
+
+Lemma Px_void_call : forall ev upd x,
+  (forall v, g_term (upd v) = g_term v) -> (forall v, g_reconf (upd v) = g_reconf v) ->
+  (forall v, okk (kind_of (ev v)) = true) ->
+  Px x -> Px (snd (void_call ev upd x)).
+Proof.
+  intros ev upd x Ht Hr He H. unfold void_call.
+  pose proof (Px_call_snd (fun _ v => ev v) (fun _ v => upd v) x (fun _ => Ht) (fun _ => Hr) (fun _ => He) H) as Hc.
+  destruct (call (fun _ v => ev v) (fun _ v => upd v) x) as [[r x']|]; cbn [snd]; [exact Hc|exact H].
+Qed.
+
+Ltac call_side okk_other :=
+  intros; cbn [kind_of keep]; try exact okk_other;
+  repeat match goal with |- context [if ?b then _ else _] => destruct b end;
+  try match goal with |- context [match v_msg ?v with Some _ => _ | None => _ end] => destruct (v_msg v) end;
+  try exact okk_other; reflexivity.
+
+Lemma cond_keeps : forall c x, Px x -> Px (snd (eval_cond c x)).
+Proof.
+  induction c; intros x H; cbn [eval_cond]; cbn [snd]; try exact H; try (apply Px_sync; exact H).
+  - pose proof (Px_call_snd (fun r _ => EInit (r =? 0)) keep x) as Hc.
+    destruct (call (fun r _ => EInit (r =? 0)) keep x) as [[r x']|]; cbn [snd]; [|exact H].
+    apply Hc; [call_side okk_other|call_side okk_other|call_side okk_other|exact H].
+  - pose proof (Px_call_snd (fun r v => ENonblock (v_sd v) (r =? 0)) keep x) as Hc.
+    destruct (call (fun r v => ENonblock (v_sd v) (r =? 0)) keep x) as [[r x']|]; cbn [snd]; [|exact H].
+    apply Hc; [call_side okk_other|call_side okk_other|call_side okk_other|exact H].
+  - pose proof (Px_call_snd (fun r _ => ECreate (r =? 0)) (fun r v => if r =? 0 then set_msg (Some (-1)) v else v) x) as Hc.
+    destruct (call (fun r _ => ECreate (r =? 0)) (fun r v => if r =? 0 then set_msg (Some (-1)) v else v) x) as [[r x']|];
+      cbn [snd]; [|exact H].
+    apply Hc; [call_side okk_other|call_side okk_other|call_side okk_other|exact H].
+  - pose proof (Px_call_snd (fun r v => EBind (v_sd v) (r =? 0))
+                 (fun r v => if r =? 0 then match v_msg v with Some _ => set_msg (Some (v_sd v)) v | None => v end else v) x) as Hc.
+    destruct (call (fun r v => EBind (v_sd v) (r =? 0))
+                 (fun r v => if r =? 0 then match v_msg v with Some _ => set_msg (Some (v_sd v)) v | None => v end else v) x)
+      as [[r x']|]; cbn [snd]; [|exact H].
+    apply Hc; [call_side okk_other|call_side okk_other|call_side okk_other|exact H].
+  - pose proof (Px_call_snd (fun r v => EQueue (msgfd v) (r =? 0)) (fun r v => if r =? 0 then set_msg None v else v) x) as Hc.
+    destruct (call (fun r v => EQueue (msgfd v) (r =? 0)) (fun r v => if r =? 0 then set_msg None v else v) x) as [[r x']|];
+      cbn [snd]; [|exact H].
+    apply Hc; [call_side okk_other|call_side okk_other|call_side okk_other|exact H].
+  - specialize (IHc x H). destruct (eval_cond c x) as [[b|] x']; exact IHc.
+  - specialize (IHc1 x H). destruct (eval_cond c1 x) as [[[|]|] x']; cbn [snd] in *; auto.
+  - specialize (IHc1 x H). destruct (eval_cond c1 x) as [[[|]|] x']; cbn [snd] in *; auto.
+Qed.
+
+Lemma stmt_keeps : forall s x, stmt_ok okk ok_clear s = true -> Px x -> Px (snd (exec s x)).
+Proof.
+  induction s; intros x Hs H; cbn [stmt_ok] in Hs; cbn [exec]; cbn [snd]; try exact H.
+  - apply andb_prop in Hs. destruct Hs as [Ha Hb]. specialize (IHs1 x Ha H).
+    destruct (exec s1 x) as [k x1]. cbn [snd] in IHs1. destruct k; cbn [snd]; auto.
+  - apply andb_prop in Hs. destruct Hs as [Ha Hb]. pose proof (cond_keeps c x H) as Hc.
+    destruct (eval_cond c x) as [[[|]|] x1]; cbn [snd] in *; auto.
+  - apply Px_void_call; [call_side okk_other|call_side okk_other|call_side okk_other|]. destruct (reads_flag t); [apply Px_sync|]; exact H.
+  - unfold Px. cbn [vs trace]. apply P_ev; [exact okk_other|exact H].
+  - unfold with_vars, Px. cbn [vs trace set_reconf g_term g_reconf]. apply (P_clear Hs _ (g_reconf (vs (sync x)))). apply (Px_sync x H).
+  - apply Px_void_call; [call_side okk_other|call_side okk_other|intros; cbn [kind_of]; first [exact Hs | exact okk_other]|exact H].
+  - pose proof (Px_call_snd (fun r v => if r =? 0 then EAcceptConn (v_nextfd v) else EAcceptErr (errno_of_code r))
+                 (fun r v => if r =? 0 then set_nextfd (v_nextfd v + 1) (set_sd (v_nextfd v) v)
+                             else set_errno (errno_of_code r) (set_sd (-1) v)) x) as Hc.
+    destruct (call (fun r v => if r =? 0 then EAcceptConn (v_nextfd v) else EAcceptErr (errno_of_code r))
+                 (fun r v => if r =? 0 then set_nextfd (v_nextfd v + 1) (set_sd (v_nextfd v) v)
+                             else set_errno (errno_of_code r) (set_sd (-1) v)) x) as [[r x']|]; cbn [snd]; [|exact H].
+    apply Hc; [call_side okk_other|call_side okk_other| |exact H].
+    intros r0 v; destruct (r0 =? 0); exact Hs.
+  - pose proof (Px_call_snd (fun r _ => ETime r) (fun r v => set_errno clobber (set_ctime r v)) x) as Hc.
+    destruct (call (fun r _ => ETime r) (fun r v => set_errno clobber (set_ctime r v)) x) as [[r x']|]; cbn [snd]; [|exact H].
+    apply Hc; [call_side okk_other|call_side okk_other|call_side okk_other|exact H].
+  - apply Px_void_call; [call_side okk_other|call_side okk_other|intros; cbn [kind_of]; first [exact Hs | exact okk_other]|exact H].
+  - apply Px_void_call; [call_side okk_other|call_side okk_other|intros; cbn [kind_of]; first [exact Hs | exact okk_other]|exact H].
+  - apply Px_void_call; [call_side okk_other|call_side okk_other|intros; cbn [kind_of]; first [exact Hs | exact okk_other]|exact H].
+  - apply Px_void_call; [call_side okk_other|call_side okk_other|intros; cbn [kind_of]; first [exact Hs | exact okk_other]|exact H].
+Qed.
+End Quiet.
+End Sig.
+
+(* ------------------------------------------------------------------------- *)
+(* body = a; accept; r                                                          *)
+(* ------------------------------------------------------------------------- *)
+Definition is_cont (k : ctl) : bool := match k with KNormal | KContinue => true | _ => false end.
+
+Lemma exec_seq : forall a b x, exec (SSeq a b) x = match exec a x with (KNormal, x') => exec b x' | r => r end.
+Proof. reflexivity. Qed.
+
+Lemma seq3 : forall (PA PM PB PW : st -> Prop) a r,
+  straight a = true ->
+  (forall x, PA x -> (fst (exec a x) = KNormal -> PM (snd (exec a x))) /\ PW (snd (exec a x))) ->
+  (forall x, PM x -> PB (snd (exec SAccept x))) ->
+  (forall x, PB x -> PB (snd (exec r x))) ->
+  (forall x, PB x -> PW x) ->
+  forall x, PA x ->
+    PW (snd (exec (SSeq a (SSeq SAccept r)) x)) /\
+    (is_cont (fst (exec (SSeq a (SSeq SAccept r)) x)) = true -> PB (snd (exec (SSeq a (SSeq SAccept r)) x))).
+Proof.
+  intros PA PM PB PW a r Hst Ha Hacc Hr Hw x HA.
+  specialize (Ha x HA). pose proof (straight_ctl a x Hst) as Hk.
+  rewrite exec_seq. destruct (exec a x) as [k x1]. cbn [fst snd] in *. destruct Ha as [Ha1 Ha2].
+  destruct Hk as [->|[->| ->]]; cbn [fst snd is_cont]; try (split; [exact Ha2|discriminate]).
+  specialize (Ha1 eq_refl). specialize (Hacc x1 Ha1). rewrite exec_seq.
+  assert (Hk2 : fst (exec SAccept x1) = KNormal \/ fst (exec SAccept x1) = KStuck).
+  { cbn [exec]. unfold call. destruct (calls x1); cbn; auto. }
+  destruct (exec SAccept x1) as [k2 x2]. cbn [fst snd] in *.
+  destruct Hk2 as [->| ->]; cbn [fst snd is_cont]; [|split; [apply Hw; exact Hacc|discriminate]].
+  specialize (Hr x2 Hacc). destruct (exec r x2) as [k3 x3]. cbn [fst snd] in *.
+  split; [apply Hw; exact Hr|intros _; exact Hr].
+Qed.
+
+(* the pieces of (job_prog lim)'s loop body *)
+Definition body_a : stmt := SIf CReconf (seq [SLog PNotice TReconfig; SClearReconf; SGids]) (seq []).
+Definition body_r (lim : Z) : stmt :=
+  match p_body (job_prog lim) with SSeq _ (SSeq _ r) => r | _ => SSkip end.
+Lemma body_split : forall lim, p_body (job_prog lim) = SSeq body_a (SSeq SAccept (body_r lim)).
+Proof. reflexivity. Qed.
+
+(* ------------------------------------------------------------------------- *)
+(* (D) stop                                                                    *)
+(* ------------------------------------------------------------------------- *)
+Definition dmr (tr : list event) := mon_rev dstep D0 tr.
+Definition PDA (gt gr : Z) (tr : list event) : Prop := (gt = 0 /\ dmr tr = Some D0) \/ (gt <> 0 /\ dmr tr = Some D1).
+Definition PDB (gt gr : Z) (tr : list event) : Prop :=
+  (gt = 0 /\ dmr tr = Some D0) \/ (gt <> 0 /\ (dmr tr = Some D1 \/ dmr tr = Some D2)).
+Definition PDE (gt gr : Z) (tr : list event) : Prop := gt <> 0 /\ (dmr tr = Some D1 \/ dmr tr = Some D2).
+Definition PDF (gt gr : Z) (tr : list event) : Prop := dmr tr = Some DF.
+Definition okkD (k : ekind) : bool := match k with KdAccept | KdFini | KdSig => false | _ => true end.
+
+Ltac d_sig :=
+  unfold PDA, PDB, PDE, PDF, dmr; intros gt gr tr s H; cbn [mon_rev];
+  repeat match goal with
+  | H : _ \/ _ |- _ => destruct H
+  | H : _ /\ _ |- _ => destruct H
+  end; subst;
+  match goal with H : mon_rev dstep D0 tr = _ |- _ => rewrite H end;
+  destruct s; cbn [dstep signo]; auto; try (right; split; [lia|auto]); try (split; [lia|auto]).
+
+Lemma PDA_sig : forall gt gr tr s, PDA gt gr tr ->
+  PDA (match s with SIGHUP => gt | _ => signo s end) (match s with SIGHUP => signo s | _ => gr end) (ESig s :: tr).
+Proof. d_sig. Qed.
+Lemma PDB_sig : forall gt gr tr s, PDB gt gr tr ->
+  PDB (match s with SIGHUP => gt | _ => signo s end) (match s with SIGHUP => signo s | _ => gr end) (ESig s :: tr).
+Proof. d_sig. Qed.
+Lemma PDE_sig : forall gt gr tr s, PDE gt gr tr ->
+  PDE (match s with SIGHUP => gt | _ => signo s end) (match s with SIGHUP => signo s | _ => gr end) (ESig s :: tr).
+Proof. d_sig. Qed.
+Lemma PDF_sig : forall gt gr tr s, PDF gt gr tr ->
+  PDF (match s with SIGHUP => gt | _ => signo s end) (match s with SIGHUP => signo s | _ => gr end) (ESig s :: tr).
+Proof. d_sig. Qed.
+
+Ltac d_ev :=
+  unfold PDA, PDB, PDE, PDF, dmr; intros gt gr tr e Hk H; cbn [mon_rev];
+  repeat match goal with
+  | H : _ \/ _ |- _ => destruct H
+  | H : _ /\ _ |- _ => destruct H
+  end; subst;
+  match goal with H : mon_rev dstep D0 tr = _ |- _ => rewrite H end;
+  destruct e; cbn [kind_of okkD] in Hk; try discriminate Hk; cbn [dstep]; auto.
+
+Lemma PDA_ev : forall gt gr tr e, okkD (kind_of e) = true -> PDA gt gr tr -> PDA gt gr (e :: tr).
+Proof. d_ev. Qed.
+Lemma PDB_ev : forall gt gr tr e, okkD (kind_of e) = true -> PDB gt gr tr -> PDB gt gr (e :: tr).
+Proof. d_ev. Qed.
+Lemma PDE_ev : forall gt gr tr e, okkD (kind_of e) = true -> PDE gt gr tr -> PDE gt gr (e :: tr).
+Proof. d_ev. Qed.
+
+Lemma PDA_clear : true = true -> forall gt gr tr, PDA gt gr tr -> PDA gt 0 tr.
+Proof. intros _ gt gr tr H; exact H. Qed.
+Lemma PDB_clear : true = true -> forall gt gr tr, PDB gt gr tr -> PDB gt 0 tr.
+Proof. intros _ gt gr tr H; exact H. Qed.
+Lemma PDE_clear : true = true -> forall gt gr tr, PDE gt gr tr -> PDE gt 0 tr.
+Proof. intros _ gt gr tr H; exact H. Qed.
+
+Definition DA_stmt := stmt_keeps PDA PDA_sig okkD true PDA_ev PDA_clear eq_refl.
+Definition DB_stmt := stmt_keeps PDB PDB_sig okkD true PDB_ev PDB_clear eq_refl.
+Definition DE_stmt := stmt_keeps PDE PDE_sig okkD true PDE_ev PDE_clear eq_refl.
+Definition DB_cond := cond_keeps PDB PDB_sig okkD PDB_ev eq_refl.
+
+Lemma DA_DB : forall x, Px PDA x -> Px PDB x.
+Proof. unfold Px, PDA, PDB. intros x [H|[H1 H2]]; auto. Qed.
+Lemma DE_DB : forall x, Px PDE x -> Px PDB x.
+Proof. unfold Px, PDE, PDB. intros x H; auto. Qed.
+
+Lemma d_accept : forall x, Px PDA x -> Px PDB (snd (exec SAccept x)).
+Proof.
+  intros x H. cbn [exec]. unfold call. destruct (calls x) as [|a cs]; cbn [snd]; [apply DA_DB; exact H|].
+  apply (Px_deliver PDB PDB_sig). unfold Px in *. cbn [vs trace].
+  assert (Hev : forall e, kind_of e = KdAccept -> PDB (g_term (vs x)) (g_reconf (vs x)) (e :: trace x)).
+  { intros e He. unfold PDA, PDB, dmr in *. cbn [mon_rev].
+    destruct H as [[H1 H2]|[H1 H2]]; rewrite H2; destruct e; try discriminate He; cbn [dstep]; auto. }
+  destruct (a_ret a =? 0); cbn; apply Hev; reflexivity.
+Qed.
+
+Definition dQ (k : ctl) (x : st) : Prop :=
+  match k with
+  | KReturn => dmr (trace x) = Some DF
+  | KStuck | KFatal | KSpin => Px PDB x
+  | _ => False
+  end.
+
+Lemma d_pre : forall lim x, Px PDB x -> match exec (p_pre (job_prog lim)) x with (KNormal, x') => Px PDB x' | (k, x') => dQ k x' end.
+Proof.
+  intros lim x H. pose proof (DB_stmt (p_pre (job_prog lim)) x eq_refl H) as Hk.
+  pose proof (straight_ctl (p_pre (job_prog lim)) x eq_refl) as Hc.
+  destruct (exec (p_pre (job_prog lim)) x) as [k x']. cbn [fst snd] in *.
+  destruct Hc as [->|[->| ->]]; exact Hk.
+Qed.
+
+Lemma d_iter : forall lim x, Px PDB x ->
+     match eval_cond (p_cond (job_prog lim)) x with
+     | (None, x') => dQ KStuck x'
+     | (Some false, x') => Px PDE x'
+     | (Some true, x') =>
+         match exec (p_body (job_prog lim)) x' with
+         | (KNormal, x'') | (KContinue, x'') => Px PDB x''
+         | (KBreak, x'') => Px PDE x''
+         | (k, x'') => dQ k x''
+         end
+     end.
+Proof.
+  intros lim x H. cbn [p_cond job_prog eval_cond].
+  pose proof (Px_sync PDB PDB_sig x H) as H1. set (x1 := sync x) in *.
+  destruct (g_term (vs x1) =? 0) eqn:Hg; cbn [negb].
+  - assert (HA : Px PDA x1).
+    { apply Z.eqb_eq in Hg. unfold Px, PDA, PDB in *. rewrite Hg in *. destruct H1 as [H1|[H1 _]]; [left; exact H1|congruence]. }
+    rewrite (body_split lim).
+    pose proof (seq3 (Px PDA) (Px PDA) (Px PDB) (Px PDB) body_a (body_r lim) eq_refl) as S3.
+    specialize (S3 (fun y Hy => conj (fun _ => DA_stmt body_a y eq_refl Hy) (DA_DB _ (DA_stmt body_a y eq_refl Hy)))
+                   d_accept (fun y Hy => DB_stmt (body_r lim) y eq_refl Hy) (fun y Hy => Hy) x1 HA).
+    pose proof (no_jump_ctl (SSeq body_a (SSeq SAccept (body_r lim))) x1 eq_refl) as [J1 [J2 J3]].
+    destruct (exec (SSeq body_a (SSeq SAccept (body_r lim))) x1) as [k x2]. cbn [fst snd] in *. destruct S3 as [S3 S4].
+    destruct k; cbn [is_cont dQ] in *; try congruence; auto.
+  - apply Z.eqb_neq in Hg. unfold Px, PDE, PDB in *. destruct H1 as [[H1 _]|H1]; [congruence|exact H1].
+Qed.
+
+Lemma d_post : forall lim x, Px PDE x -> dQ (fst (exec (p_post (job_prog lim)) x)) (snd (exec (p_post (job_prog lim)) x)).
+Proof.
+  intros lim x H. cbn [p_post job_prog seq]. cbn [exec].
+  pose proof (DE_stmt (SLog PNotice TExiting) x eq_refl H) as H1.
+  pose proof (straight_ctl (SLog PNotice TExiting) x eq_refl) as Hc.
+  cbn [exec] in H1, Hc.
+  destruct (void_call (fun v => ELog PNotice TExiting (log_arg TExiting v)) (fun v => v) (if reads_flag TExiting then sync x else x))
+    as [k x1]. cbn [fst snd] in *.
+  destruct Hc as [->|[->| ->]]; cbn [fst snd dQ]; try (apply DE_DB; exact H1).
+  unfold void_call, call. destruct (calls x1) as [|a cs]; cbn [fst snd dQ]; [apply DE_DB; exact H1|].
+  apply (Px_deliver PDF PDF_sig). unfold Px, PDF, PDE, dmr in *. cbn [vs trace mon_rev].
+  destruct H1 as [_ [H1|H1]]; rewrite H1; reflexivity.
+Qed.
+
+Lemma d_spin : forall x, Px PDB x -> dQ KSpin x.
+Proof. intros x H; exact H. Qed.
+
+Theorem stop : forall lim isigs cs rs, stop_ok (snd (run (job_prog lim) isigs cs rs)) (fst (run (job_prog lim) isigs cs rs)) = true.
+Proof.
+  intros. unfold run.
+  assert (H : dQ (fst (run_from (job_prog lim) (deliver isigs (init cs rs)))) (snd (run_from (job_prog lim) (deliver isigs (init cs rs))))).
+  { apply run_from_rule with (I0 := Px PDB) (I := Px PDB) (Ie := Px PDE); [exact (d_pre lim)|exact d_spin|exact (d_iter lim)|exact (d_post lim)|].
+    apply (Px_deliver PDB PDB_sig). left. split; reflexivity. }
+  destruct (run_from (job_prog lim) (deliver isigs (init cs rs))) as [k x]. cbn [fst snd] in *.
+  unfold stop_ok. rewrite mon_rev_spec. fold (dmr (trace x)).
+  destruct k; cbn [dQ] in H; try contradiction; try (rewrite H; reflexivity);
+    unfold Px, PDB in H; destruct H as [[_ H]|[_ [H|H]]]; rewrite H; reflexivity.
+Qed.
+
+(* ------------------------------------------------------------------------- *)
+(* (E) SIGHUP                                                                  *)
+(* ------------------------------------------------------------------------- *)
+Definition emr (tr : list event) := mon_rev estep None tr.
+Definition PG1 (gt gr : Z) (tr : list event) : Prop :=
+  emr tr = Some None \/ exists k, emr tr = Some (Some k) /\ (k <= 1)%nat /\ gr <> 0.
+Definition PG0 (gt gr : Z) (tr : list event) : Prop := emr tr = Some None \/ (emr tr = Some (Some 0%nat) /\ gr <> 0).
+Definition PW (gt gr : Z) (tr : list event) : Prop := emr tr = Some None \/ exists k, emr tr = Some (Some k) /\ (k <= 1)%nat.
+Definition okkE (k : ekind) : bool := match k with KdAccept | KdGids | KdSig => false | _ => true end.
+
+Ltac e_open :=
+  unfold PG1, PG0, PW, emr in *; cbn [mon_rev];
+  repeat match goal with
+  | H : _ \/ _ |- _ => destruct H
+  | H : _ /\ _ |- _ => destruct H
+  | H : exists _, _ |- _ => destruct H
+  end; subst;
+  match goal with H : mon_rev estep None _ = _ |- _ => rewrite H end.
+
+Lemma PG1_sig : forall gt gr tr s, PG1 gt gr tr ->
+  PG1 (match s with SIGHUP => gt | _ => signo s end) (match s with SIGHUP => signo s | _ => gr end) (ESig s :: tr).
+Proof.
+  intros gt gr tr s H; e_open; destruct s; cbn [estep signo]; auto.
+  - right. exists 0%nat. repeat split; auto; lia.
+  - right. exists x. repeat split; auto; lia.
+  - right. exists x. repeat split; auto.
+  - right. exists x. repeat split; auto.
+Qed.
+Lemma PG0_sig : forall gt gr tr s, PG0 gt gr tr ->
+  PG0 (match s with SIGHUP => gt | _ => signo s end) (match s with SIGHUP => signo s | _ => gr end) (ESig s :: tr).
+Proof.
+  intros gt gr tr s H; e_open; destruct s; cbn [estep signo]; auto; right; split; auto; lia.
+Qed.
+Lemma PW_sig : forall gt gr tr s, PW gt gr tr ->
+  PW (match s with SIGHUP => gt | _ => signo s end) (match s with SIGHUP => signo s | _ => gr end) (ESig s :: tr).
+Proof.
+  intros gt gr tr s H; e_open; destruct s; cbn [estep signo]; auto.
+  - right. exists 0%nat. split; auto.
+  - right. exists x. split; auto.
+  - right. exists x. split; auto.
+  - right. exists x. split; auto.
+Qed.
+
+Lemma PG1_ev : forall gt gr tr e, okkE (kind_of e) = true -> PG1 gt gr tr -> PG1 gt gr (e :: tr).
+Proof.
+  intros gt gr tr e Hk H; e_open; destruct e; cbn [kind_of okkE] in Hk; try discriminate Hk; cbn [estep]; auto;
+    right; exists x; repeat split; auto.
+Qed.
+Lemma PG1_clear : false = true -> forall gt gr tr, PG1 gt gr tr -> PG1 gt 0 tr.
+Proof. discriminate. Qed.
+
+Definition G1_stmt := stmt_keeps PG1 PG1_sig okkE false PG1_ev PG1_clear eq_refl.
+Definition G1_cond := cond_keeps PG1 PG1_sig okkE PG1_ev eq_refl.
+
+Lemma G1_W : forall x, Px PG1 x -> Px PW x.
+Proof. unfold Px, PG1, PW. intros x [H|[k [H1 [H2 _]]]]; [left; exact H|right; exists k; auto]. Qed.
+Lemma G0_W : forall x, Px PG0 x -> Px PW x.
+Proof. unfold Px, PG0, PW. intros x [H|[H1 _]]; [left; exact H|right; exists 0%nat; auto]. Qed.
+
+Lemma exec_clear : forall x, exec SClearReconf x = (KNormal, with_vars (set_reconf 0) (sync x)).
+Proof. reflexivity. Qed.
+Lemma exec_gids : forall x, exec SGids x = void_call (fun _ => EGids) (fun v => v) x.
+Proof. reflexivity. Qed.
+Lemma exec_skip : forall x, exec SSkip x = (KNormal, x).
+Proof. reflexivity. Qed.
+
+Lemma e_a : forall x, Px PG1 x ->
+  (fst (exec body_a x) = KNormal -> Px PG0 (snd (exec body_a x))) /\ Px PW (snd (exec body_a x)).
+Proof.
+  intros x H. unfold body_a. cbn [exec eval_cond].
+  pose proof (Px_sync PG1 PG1_sig x H) as H1. set (x1 := sync x) in *.
+  destruct (g_reconf (vs x1) =? 0) eqn:Hg; cbn [negb].
+  - cbn [seq exec fst snd]. apply Z.eqb_eq in Hg. split; [intros _|apply G1_W; exact H1].
+    unfold Px, PG1, PG0 in *. destruct H1 as [H1|[k [_ [_ H1]]]]; [left; exact H1|congruence].
+  - cbn [seq]. rewrite exec_seq.
+    pose proof (G1_stmt (SLog PNotice TReconfig) x1 eq_refl H1) as H2.
+    pose proof (straight_ctl (SLog PNotice TReconfig) x1 eq_refl) as Hc.
+    destruct (exec (SLog PNotice TReconfig) x1) as [k x2]. cbn [fst snd] in *.
+    destruct Hc as [->|[->| ->]]; cbn [fst snd]; try (split; [discriminate|apply G1_W; exact H2]).
+    rewrite exec_seq, exec_clear.
+    pose proof (Px_sync PG1 PG1_sig x2 H2) as H3. apply G1_W in H3.
+    set (x3 := with_vars (set_reconf 0) (sync x2)).
+    assert (HW : Px PW x3) by exact H3.
+    fold x3. cbv iota. rewrite exec_seq, exec_gids. unfold void_call, call.
+    destruct (calls x3) as [|a cs]; [cbn [fst snd]; split; [discriminate|exact HW]|]. rewrite exec_skip. cbn [fst snd].
+    assert (HG : Px PG0 (deliver (a_sigs a) (mks (vs x3) cs (reads x3) (rdx x3) (EGids :: trace x3)))).
+    { apply (Px_deliver PG0 PG0_sig). unfold Px, PG0, PW, emr in *. cbn [vs trace mon_rev].
+      destruct HW as [HW|[k [HW _]]]; rewrite HW; left; reflexivity. }
+    split; [intros _; exact HG|apply G0_W; exact HG].
+Qed.
+
+Lemma e_accept : forall x, Px PG0 x -> Px PG1 (snd (exec SAccept x)).
+Proof.
+  intros x H. cbn [exec]. unfold call. destruct (calls x) as [|a cs]; cbn [snd].
+  - unfold Px, PG0, PG1 in *. destruct H as [H|[H1 H2]]; [left; exact H|right; exists 0%nat; auto].
+  - apply (Px_deliver PG1 PG1_sig). unfold Px in *. cbn [vs trace].
+    assert (Hev : forall e, kind_of e = KdAccept -> PG1 (g_term (vs x)) (g_reconf (vs x)) (e :: trace x)).
+    { intros e He. unfold PG0, PG1, emr in *. cbn [mon_rev].
+      destruct H as [H|[H1 H2]]; [rewrite H|rewrite H1]; destruct e; try discriminate He; cbn [estep]; auto;
+        right; exists 1%nat; auto. }
+    destruct (a_ret a =? 0); cbn; apply Hev; reflexivity.
+Qed.
+
+Definition eQ (k : ctl) (x : st) : Prop := Px PW x.
+
+Lemma e_pre : forall lim x, Px PG1 x -> match exec (p_pre (job_prog lim)) x with (KNormal, x') => Px PG1 x' | (k, x') => eQ k x' end.
+Proof.
+  intros lim x H. pose proof (G1_stmt (p_pre (job_prog lim)) x eq_refl H) as Hk.
+  destruct (exec (p_pre (job_prog lim)) x) as [k x']. cbn [fst snd] in *.
+  destruct k; try exact Hk; apply G1_W; exact Hk.
+Qed.
+
+Lemma e_iter : forall lim x, Px PG1 x ->
+     match eval_cond (p_cond (job_prog lim)) x with
+     | (None, x') => eQ KStuck x'
+     | (Some false, x') => Px PG1 x'
+     | (Some true, x') =>
+         match exec (p_body (job_prog lim)) x' with
+         | (KNormal, x'') | (KContinue, x'') => Px PG1 x''
+         | (KBreak, x'') => Px PG1 x''
+         | (k, x'') => eQ k x''
+         end
+     end.
+Proof.
+  intros lim x H. pose proof (G1_cond (p_cond (job_prog lim)) x H) as H1.
+  destruct (eval_cond (p_cond (job_prog lim)) x) as [[[|]|] x1]; cbn [snd] in H1; try exact H1; [|apply G1_W; exact H1].
+  rewrite (body_split lim).
+  pose proof (seq3 (Px PG1) (Px PG0) (Px PG1) (Px PW) body_a (body_r lim) eq_refl e_a e_accept
+                   (fun y Hy => G1_stmt (body_r lim) y eq_refl Hy) G1_W x1 H1) as [S3 S4].
+  pose proof (no_jump_ctl (SSeq body_a (SSeq SAccept (body_r lim))) x1 eq_refl) as [J1 [J2 J3]].
+  destruct (exec (SSeq body_a (SSeq SAccept (body_r lim))) x1) as [k x2]. cbn [fst snd] in *.
+  destruct k; cbn [is_cont eQ] in *; try congruence; auto.
+Qed.
+
+Lemma e_post : forall lim x, Px PG1 x -> eQ (fst (exec (p_post (job_prog lim)) x)) (snd (exec (p_post (job_prog lim)) x)).
+Proof. intros lim x H. apply G1_W. apply (G1_stmt (p_post (job_prog lim)) x eq_refl H). Qed.
+
+Theorem sighup : forall lim isigs cs rs, sighup_ok (snd (run (job_prog lim) isigs cs rs)) = true.
+Proof.
+  intros. unfold run.
+  assert (H : eQ (fst (run_from (job_prog lim) (deliver isigs (init cs rs)))) (snd (run_from (job_prog lim) (deliver isigs (init cs rs))))).
+  { apply run_from_rule with (I0 := Px PG1) (I := Px PG1) (Ie := Px PG1); [exact (e_pre lim)|exact G1_W|exact (e_iter lim)|exact (e_post lim)|].
+    apply (Px_deliver PG1 PG1_sig). left. reflexivity. }
+  destruct (run_from (job_prog lim) (deliver isigs (init cs rs))) as [k x]. cbn [fst snd] in *.
+  unfold sighup_ok. rewrite mon_rev_spec. fold (emr (trace x)).
+  unfold eQ, Px, PW in H. destruct H as [H|[n [H _]]]; rewrite H; reflexivity.
+Qed.
+
+(* ------------------------------------------------------------------------- *)
+(* for the program translated from the source                                  *)
+(* ------------------------------------------------------------------------- *)
+Lemma handoff_for : forall p lim, p = job_prog lim ->
+  forall isigs cs rs, handoff_ok (snd (run p isigs cs rs)) (fst (run p isigs cs rs)) = true.
+Proof. intros p lim ->. exact (handoff lim). Qed.
+Lemma backlog_for : forall p lim, p = job_prog lim ->
+  forall isigs cs rs, backlog_ok (snd (run p isigs cs rs)) (fst (run p isigs cs rs)) = true.
+Proof. intros p lim ->. exact (backlog lim). Qed.
+Lemma stop_for : forall p lim, p = job_prog lim ->
+  forall isigs cs rs, stop_ok (snd (run p isigs cs rs)) (fst (run p isigs cs rs)) = true.
+Proof. intros p lim ->. exact (stop lim). Qed.
+Lemma sighup_for : forall p lim, p = job_prog lim ->
+  forall isigs cs rs, sighup_ok (snd (run p isigs cs rs)) = true.
+Proof. intros p lim ->. exact (sighup lim). Qed.
+
+(* SIGTERM's handler runs after the loop test, accept () is entered all the same (and returns
+   here only because a client connects): the window of finding F-C12-accept *)
+Definition window_reads (n : nat) : list sig := match n with 1%nat => [SIGTERM] | _ => [] end.
+Lemma accept_after_stop : exists cs rs l1 l2 fd,
+  snd (run job_ref [] cs rs) = l1 ++ ESig SIGTERM :: EAcceptConn fd :: l2.
+Proof.
+  exists [mka 0 []; mka 0 []; mka 0 []], window_reads, [EInit true; ELog PInfo TCreated 0], [], first_fd.
+  vm_compute. reflexivity.
+Qed.
+
+(* ------------------------------------------------------------------------- *)
+(* (P) progress                                                                *)
+(* ------------------------------------------------------------------------- *)
+Lemma pstep_sig : forall m s, pstep m (ESig s) = Some m.
+Proof. reflexivity. Qed.
+
+Definition pm (x : st) := mon_rev pstep O (trace x).
+Definition pI (x : st) : Prop := 0 <= v_nextfd (vs x) /\ exists n, pm x = Some n /\ (n <= 6)%nat.
+Definition pQ (k : ctl) (x : st) : Prop := pm x <> None.
+
+Ltac p_leaves Hm Hn n :=
+  repeat first [rewrite (mon_rev_sigev _ pstep pstep_sig) | rewrite mon_rev_cons];
+  rewrite Hm;
+  destruct n as [|[|[|[|[|[|[|n]]]]]]]; [| | | | | | |exfalso; lia];
+  cbn [pstep Nat.ltb Nat.leb progress_bound];
+  try discriminate;
+  try (split; [lia | eexists; split; [reflexivity | lia]]).
+
+Lemma p_iter : forall lim x, pI x ->
+     match eval_cond (p_cond (job_prog lim)) x with
+     | (None, x') => pQ KStuck x'
+     | (Some false, x') => pI x'
+     | (Some true, x') =>
+         match exec (p_body (job_prog lim)) x' with
+         | (KNormal, x'') | (KContinue, x'') => pI x''
+         | (KBreak, x'') => pI x''
+         | (k, x'') => pQ k x''
+         end
+     end.
+Proof.
+  intros lim [[gt gr sd e ce ct le lt m nf] cs rs n tr] [Hnf [k [Hm Hn]]].
+  unfold pI, pQ, pm in *. cbn [trace vs v_nextfd] in *.
+  model_red. repeat sym_step.
+  all: p_leaves Hm Hn k.
+Qed.
+
+Definition pI0 (x : st) : Prop := 0 <= v_nextfd (vs x) /\ pm x = Some O.
+
+Lemma p_pre : forall lim x, pI0 x -> match exec (p_pre (job_prog lim)) x with (KNormal, x') => pI x' | (k, x') => pQ k x' end.
+Proof.
+  intros lim [[gt gr sd e ce ct le lt m nf] cs rs n tr] [Hnf Hm].
+  unfold pI, pQ, pm in *. cbn [trace vs v_nextfd] in *.
+  model_red. repeat sym_step.
+  all: repeat first [rewrite (mon_rev_sigev _ pstep pstep_sig) | rewrite mon_rev_cons]; rewrite Hm;
+       cbn [pstep Nat.ltb Nat.leb progress_bound]; try discriminate;
+       try (split; [lia | eexists; split; [reflexivity | lia]]).
+Qed.
+
+Lemma p_post : forall lim x, pI x -> pQ (fst (exec (p_post (job_prog lim)) x)) (snd (exec (p_post (job_prog lim)) x)).
+Proof.
+  intros lim [[gt gr sd e ce ct le lt m nf] cs rs n tr] [Hnf [k [Hm Hn]]].
+  unfold pI, pQ, pm in *. cbn [trace vs v_nextfd] in *.
+  model_red. repeat sym_step.
+  all: cbn [fst snd trace]; p_leaves Hm Hn k.
+Qed.
+
+Lemma p_spin : forall x, pI x -> pQ KSpin x.
+Proof. intros x [_ [n [Hm _]]]. unfold pQ. rewrite Hm. discriminate. Qed.
+
+Theorem progress : forall lim isigs cs rs, progress_ok (snd (run (job_prog lim) isigs cs rs)) = true.
+Proof.
+  intros. unfold run.
+  assert (H : pQ (fst (run_from (job_prog lim) (deliver isigs (init cs rs)))) (snd (run_from (job_prog lim) (deliver isigs (init cs rs))))).
+  { apply run_from_rule with (I0 := pI0) (I := pI) (Ie := pI); [exact (p_pre lim)|exact p_spin|exact (p_iter lim)|exact (p_post lim)|].
+    rewrite init_eq. split; [cbn; unfold first_fd; lia|]. unfold pm. cbn [trace].
+    rewrite (mon_rev_sigev _ pstep pstep_sig). reflexivity. }
+  destruct (run_from (job_prog lim) (deliver isigs (init cs rs))) as [k x]. cbn [fst snd] in *.
+  unfold progress_ok, pQ, pm in *. rewrite mon_rev_spec. destruct (mon_rev pstep 0%nat (trace x)); [reflexivity|congruence].
+Qed.
+
+Lemma progress_for : forall p lim, p = job_prog lim ->
+  forall isigs cs rs, progress_ok (snd (run p isigs cs rs)) = true.
+Proof. intros p lim ->. exact (progress lim). Qed.
